@@ -49,11 +49,25 @@ TVALS = ["x", "y", "x", "z"]
 YVALS = [10.0, 20.0, 30.0, 40.0]
 
 
-def make_frame(n, a_null, A_null, y_null, index_kind):
+A_DTYPES = ["float64", "Int64", "Float64", "boolean", "float32"]
+T_DTYPES = ["object", "category", "string"]
+
+
+def make_frame(n, a_null, A_null, y_null, index_kind, a_dtype="float64", t_dtype="object"):
     a = [np.nan if i in a_null else AVALS[i] for i in range(n)]
     A = [None if i in A_null else TVALS[i] for i in range(n)]
     y = [np.nan if i in y_null else YVALS[i] for i in range(n)]
     df = pd.DataFrame({"a": a, "A": pd.Series(A, dtype=object), "y": y})
+    if a_dtype == "Int64":
+        df["a"] = pd.array([pd.NA if i in a_null else int(2 + 3 * i) for i in range(n)], dtype="Int64")
+    elif a_dtype == "boolean":
+        df["a"] = pd.array([pd.NA if i in a_null else bool(i % 2) for i in range(n)], dtype="boolean")
+    elif a_dtype != "float64":
+        df["a"] = df["a"].astype(a_dtype)
+    if t_dtype == "category":
+        df["A"] = pd.Categorical(A)
+    elif t_dtype == "string":
+        df["A"] = pd.array(A, dtype="string")
     idx = INDEXES[index_kind](n)
     if idx is not None:
         df.index = idx
@@ -195,6 +209,36 @@ def drv_entries(c, ctx, col):
     col.sample(detail)
 
 
+def drv_dtypes(c, ctx, col):
+    """the same rows must be removed whatever dtype carries the nulls (NaN, None, pandas.NA in nullable / string / categorical columns)"""
+    n = ctx["n"]
+    formula = c.pick(ctx["formulas"])
+    a_dtype = c.pick(A_DTYPES)
+    t_dtype = c.pick(T_DTYPES)
+    a_null, A_null = pattern(c, n, 2), pattern(c, n, 2)
+    if len(a_null) + len(A_null) > 2 or len(a_null) + len(A_null) == 0:
+        raise Skip()
+    y_null = ()
+    output = c.pick(["pandas", "sparse"])
+    dropname = c.pick(["none", "empty"])
+    df = make_frame(n, a_null, A_null, y_null, "strings", a_dtype, t_dtype)
+    nulls = null_rows(formula, a_null, A_null, y_null)
+    detail = {"formula": formula, "a_dtype": a_dtype, "A_dtype": t_dtype, "a_null": a_null, "A_null": A_null, "drop_rows": dropname,
+              "output": output, "dtypes": {k: str(v) for k, v in df.dtypes.items()}}
+    key = "dtypes %r a:%s A:%s a_null=%s A_null=%s drop=%s output=%s" % (formula, a_dtype, t_dtype, a_null, A_null, dropname, output)
+    check_drop(col, key, formula, df, nulls, dropname, "model_matrix", output, detail)
+    # and the raise policy
+    err = None
+    try:
+        model_matrix(formula, df, na_action="raise", output=output)
+    except Exception as e:  # noqa
+        err = e
+    if bool(nulls) != (err is not None):
+        col.violation(key + " policy=raise", dict(detail, raised=repr(err), null_rows=sorted(nulls)),
+                      sig="raise:" + ("no-error-despite-nulls" if nulls else "error-without-nulls"))
+    col.sample(detail)
+
+
 def drv_reuse(c, ctx, col):
     """a fitted spec applied to data with nulls (drop policy travels with the spec)"""
     n = ctx["n"]
@@ -303,6 +347,8 @@ def subchecks(tier, seed):
         Sub("drop-entries", drv_entries, {"n": 3, "formulas": allf, "max_nulls": 1 if quick else 2}, shard_depth=3,
             bounds={"rows": 3, "null_patterns": "<= %d nulls over a, A; <= 1 in y" % (1 if quick else 2), "entries": ENTRIES,
                     "outputs": ["pandas", "numpy", "sparse"]}),
+        Sub("drop-dtypes", drv_dtypes, {"n": 3, "formulas": ["a", "A", "a + A", "a:A", "y ~ a", "C(A)", "{a+1}"]}, shard_depth=3,
+            bounds={"rows": 3, "null carriers": {"a": A_DTYPES, "A": T_DTYPES}, "null_patterns": "1..2 nulls over a, A"}),
         Sub("drop-reuse", drv_reuse, {"n": 3, "formulas": [f for f in allf if "hashed" not in f], "max_nulls": 1 if quick else 2}, shard_depth=3,
             bounds={"rows": 3, "fit": "clean frame", "apply": "frame with <= %d nulls over a, A; <= 1 in y" % (1 if quick else 2)}),
         Sub("policies", drv_policies, {"n": 3 if quick else 4, "formulas": allf, "entries": pe[:2] if quick else pe,
